@@ -1,6 +1,7 @@
 package v2
 
 import (
+	"encoding/binary"
 	"errors"
 	"io"
 	"math"
@@ -130,6 +131,18 @@ func (fw *FileWriter) openExistingFile() error {
 		return err
 	}
 
+	// A crash (or a failed create) can leave a file too short to hold its header:
+	// nothing in it can be read, so start it over instead of failing forever.
+	info, err := file.Stat()
+	if err != nil {
+		file.Close()
+		return err
+	}
+	if info.Size() < FileHeaderSize {
+		file.Close()
+		return fw.createNewFile()
+	}
+
 	// Read header
 	headerBuf := make([]byte, FileHeaderSize)
 	if _, err := io.ReadFull(file, headerBuf); err != nil {
@@ -141,6 +154,30 @@ func (fw *FileWriter) openExistingFile() error {
 	if err := fw.header.Deserialize(headerBuf); err != nil {
 		file.Close()
 		return err
+	}
+	if info.Size() < fw.header.DataStartOffset() { // the name never made it to disk
+		file.Close()
+		return fw.createNewFile()
+	}
+
+	// Cut a torn tail: walk the block headers and stop at the first block that is
+	// not entirely there; appending behind it would hide every later block.
+	end, bh := fw.header.DataStartOffset(), make([]byte, BlockHeaderSize)
+	for {
+		if _, err := file.ReadAt(bh, end); err != nil {
+			break
+		}
+		next := end + BlockHeaderSize + int64(binary.LittleEndian.Uint32(bh[0:4]))
+		if next > info.Size() {
+			break
+		}
+		end = next
+	}
+	if end < info.Size() {
+		if err := file.Truncate(end); err != nil {
+			file.Close()
+			return err
+		}
 	}
 
 	fw.file = file
